@@ -1,12 +1,11 @@
-SPECIFICATION Spec
+SPECIFICATION InfSpec
 CONSTANTS
-  MaxLen = 5
+  MaxLen = 4
   Pairs = FALSE
   TiesLen = 6
   ValSet <- SignedSet
   ValSet2 = {0, 1}
   Elem <- ElemDef
   Elem2 <- Elem2Def
-INVARIANTS FoldRefines FoldPrefix PermInvariant NullTransparent FoldPrimitives Emit1
-PROPERTY Terminates
+INVARIANTS InfLawsInv EmitInf
 CHECK_DEADLOCK FALSE
